@@ -250,7 +250,11 @@ std::string to_string(string const &tstr)
     {
         if (elem.glyph_.charset_ == charset::utf8)
         {
-            for (auto const &ch : elem.glyph_.ucharacter_)
+            // The first byte is always part of the glyph (U+0000 encodes as
+            // a single NUL byte); NULs after it are padding.
+            result += static_cast<char>(elem.glyph_.ucharacter_[0]);
+
+            for (auto const &ch : std::span{elem.glyph_.ucharacter_}.subspan(1))
             {
                 if (ch == 0)
                 {
